@@ -96,9 +96,9 @@ def cid(c) -> str:
 
 # --------------------------------------------------------------------------- base documents
 
-def gen_base(rnd) -> Dict[str, Any]:
+def gen_base(rnd, small: bool = False) -> Dict[str, Any]:
     r = rnd
-    n = r.choice([2, 3, 3, 4, 4, 5, 6])
+    n = r.choice([2, 3, 3, 4] if small else [2, 3, 3, 4, 4, 5, 6])
     nstages = r.choice([1, 1, 2, 3])
     stages = sorted(r.randrange(nstages) for _ in range(n))
     remap = {s: k for k, s in enumerate(sorted(set(stages)))}      # stage indices are contiguous from 0
@@ -195,7 +195,7 @@ def gen_base(rnd) -> Dict[str, Any]:
         # options with valid values
         opts = [p for p in OPTIONS if OPTIONS[p][1]]
         r.shuffle(opts)
-        for path in opts[: r.choice([0, 1, 2, 4, 6])]:
+        for path in opts[: r.choice([0, 1, 2, 3] if small else [0, 1, 2, 4, 6])]:
             if path == ("workflowAttributes", "aggregate"):
                 continue
             val = copy.deepcopy(r.choice(OPTIONS[path][1]))
